@@ -52,7 +52,7 @@ def run(c, facts, tier):
     c.explanation = (
         "Code-generation tables extracted by abstract interpretation of every match arm of the TargetScheme impls are compared, row by row (one row per variant combination, whitespace-insensitive S-expression "
         "tokens), with the reference tables; on top, semantic rules check the comparison operator and operand order, unit constants and same-unit comparison, POSIX type bits and mask, matcher choice agreement "
-        "between the two managers, printer/terminator per action, directive/argument alignment of format strings, and the program skeleton. Each violated row is a definite mistranslation."
+        "between the two managers, printer/terminator per action, directive/argument alignment of format strings, what each element of a joined collection contributes (per-element case tables, compared up to refinement of the case split), and the program skeleton. Each violated row is a definite mistranslation."
     )
     c.decided = ["operator, comparison, field, unit, mask and printer named by the emitted text for every variant (necessary for equivalence)"]
     c.not_decided = ["what the LiPE/Guile procedures compute at run time", "run-time failure freedom of the policy", "truth value of actions", "order of outputs across files"]
